@@ -30,7 +30,7 @@ ASSUMPTIONS = [
 REQUIRED_CELLS = {
     'quick': ['op=add', 'op=sub_roundtrip', 'op=iadd', 'op=isub', 'op=sub_empty', 'op=add_empty', 'op=mul', 'op=div',
               'op=imul', 'op=idiv', 'op=neg', 'op=copy', 'op=copy_basis', 'op=backwards_r', 'op=backwards_none',
-              'op=item_to_set', 'op=set_to_item', 'op=item_imul', 'op=item_idiv', 'op=reduce', 'mixed-basis', 'neg-operand', 'ph=1', 'ph=0'],
+              'op=item_to_set', 'op=set_to_item', 'items:int-conversions', 'op=item_imul', 'op=item_idiv', 'op=reduce', 'mixed-basis', 'neg-operand', 'ph=1', 'ph=0'],
     'thorough': [],
 }
 
@@ -125,7 +125,7 @@ class World:
 
 
 def draw_world(ch, ctx, n, modes=('mol', 'mol', 'wt_copy', 'wt_coeff'), same_basis=False, reactants=None,
-               x_lo=0.0, x_hi=1.0, signs=False):
+               x_lo=0.0, x_hi=1.0, signs=False, int_x=False):
     """n reactions sharing a reactant (or drawn from ``reactants`` pool sizes) on one package.
 
     ``signs``: an operand may be the *result of negation* (`-r`, X < 0) or of a subtraction whose right
@@ -154,8 +154,13 @@ def draw_world(ch, ctx, n, modes=('mol', 'mol', 'wt_copy', 'wt_coeff'), same_bas
         w.phases = tuple(full)
     first_mode = None
     for i in range(n):
-        X = rx.draw_X(ch, f'r{i}', x_lo, x_hi)
+        if int_x:
+            # every conversion handed over as a whole-number Python int (what the doctests do)
+            X = ch.choice(f'r{i}.X.int', [1, 0, 1])
+        else:
+            X = rx.draw_X(ch, f'r{i}', x_lo, x_hi)
         spec = rx.RSpec(nus[i], rs[i], X, {k: pm[k] for k in nus[i]} if w.tagged else None)
+        spec.x_as_int = int_x or (X == int(X) and ch.bool(f'r{i}.X.as_int'))
         mode = ch.choice(f'r{i}.mode', list(modes))
         if same_basis and i > 0:
             mode = mode if (mode == 'mol') == (first_mode == 'mol') else first_mode
@@ -550,7 +555,10 @@ def prop_items(ch, ctx):
     op = ch.choice('op', ITEM_OPS)
     kind = 'par' if op in ('reduce', 'set_add') else ch.choice('kind', ['par', 'ser'])
     n = ch.int('n', 2, 4)
-    w = draw_world(ch, ctx, n, modes=('mol', 'wt_copy', 'wt_coeff'), same_basis=True, reactants=2)
+    int_x = ch.bool('ints')
+    if int_x:
+        ctx.cell('items:int-conversions')
+    w = draw_world(ch, ctx, n, modes=('mol', 'wt_copy', 'wt_coeff'), same_basis=True, reactants=2, int_x=int_x)
     B = w.bases[0]
     cls = tmo.ParallelReaction if kind == 'par' else tmo.SeriesReaction
     region = f'op={op},kind={kind},basis={B},ph={int(w.tagged)}'
